@@ -43,9 +43,9 @@ CHECKS = {
         note='Trusted: Fraction arithmetic of the reference; results within 1e-9 of a floor boundary accept both neighbours.',
         design='5/C10'),
     'C11': dict(
-        technique='exhaustive input-grid enumeration of the real long/short sizer vs exact truncation rule',
+        technique='exhaustive input-grid enumeration of the real long/short sizer vs the exact affordability band of the statement',
         text='As C10 for the long/short sizer: int quantities with the sign of the weight, truncation toward zero, maximality to within one currency unit, gross exposure <= L*E*(1+f), on one sizer object per group with changing quotes / assets / equity; refusal grids for non-positive leverage (also through the system wiring) and NaN prices.',
-        note='Trusted: Fraction arithmetic of the reference; boundary cases counted in boundary_ambiguous.',
+        note='Trusted: Fraction arithmetic of the reference. No exact quantity is demanded beyond the statement: any whole number that is affordable and maximal to within one currency unit passes; points where that band holds two numbers are counted in boundary_ambiguous.',
         design='5/C11'),
     'C12': dict(
         technique='exhaustive calendar enumeration of the real simulation engine vs independent date arithmetic',
